@@ -655,7 +655,7 @@ def sig (f : String) : Option (String × String × List K) :=
   else if f == "pown" then some ("fn", f, [.x, .i32])
   else if f == "prelu" || f == "elu" then some ("fn", f, [.x, .f])
   else if f == "input" then some ("fn", f, [.sh, .data, .curdev])
-  else if f == "copy" then some ("fn", f, [.x, .devn])
+  else if f == "copy" then none   -- see arithSig: the device argument may be omitted
   else if f == "pick" then some ("fn", f, [.x, .ids, .u])
   else if f == "slice" then some ("fn", f, [.x, .u, .u, .u])
   else if f == "split" then some ("fn", f, [.x, .u, .u])
@@ -769,7 +769,12 @@ def varTokens (toks : List String) : List String :=
 
 /-- the five arithmetic functions and operators take `x k`, `k x` or `a b` -/
 def arithSig (f : String) (toks : List String) : Option (String × String × List K) :=
-  if f == "softmax_cross_entropy" then
+  if f == "copy" then
+    (match toks with
+     | [_] => some ("fn", f, [.x])
+     | [_, _] => some ("fn", f, [.x, .devn])
+     | _ => none)
+  else if f == "softmax_cross_entropy" then
     (match toks with
      | [_, b, _] => some ("fn", f, if b.startsWith "I:" then [.x, .ids, .u] else [.x, .x, .u])
      | _ => none)
@@ -895,7 +900,8 @@ def doLet (st : State) (name f : String) (toks : List String) : State × String 
           let (out, tv) := match tshapes with
             | none => (out ++ (if mixedDev then " devmix" else " tensor-err"), none)
             | some l =>
-              if l.length == ns.length && (l.zip ns).all (fun p => p.1.shape.eq p.2.shape && p.1.shape.dims == p.2.shape.dims) then (out, some l)
+              if l.length == ns.length && (l.zip ns).all (fun p => p.1.shape.eq p.2.shape && p.1.shape.dims == p.2.shape.dims) then
+                (out ++ (if mixedDev then " tensor-accepts-devmix" else ""), some l)
               else (out ++ " tensor-shape " ++ shapesStr (l.map (·.shape)) isvec, some l)
           let var : Var := ⟨ns, tv, random, isvec⟩
           ({ st1 with vars := (name, var) :: st1.vars }, out)
